@@ -75,6 +75,30 @@ _p("C10", "CrossHair/z3 symbolic execution of DictExporter/DictImporter with ful
    ["attribute keys 'parent'/'children' and non-identifier keys (excluded by the statement)", "LightNodeMixin classes (no __dict__)", "values of container types (passed through untouched like any object)"],
    COMMON_ASSUME)
 
+_p("C11", "CrossHair/z3 bounded exhaustive symbolic execution of JsonExporter/JsonImporter over shapes, start nodes, maxlevel and a value table, all json option sets in-path",
+   CH + ". Weaker than the other claims and said so: json is a stdlib/C boundary where symbolic strings give no verdict, so attribute values are table-selected "
+   "(26 values incl. control characters, U+2028/U+2029/U+0085, non-BMP, big ints, float edge cases, nested containers); the solver contributes exhaustive shape/start/maxlevel/value-rotation coverage; "
+   "ten json option sets are exercised inside each path.",
+   "one path = (shape, start, value rotation, maxlevel); non-trivial = >= 2 nodes",
+   "trees with <= 3 nodes, every start node, maxlevel None/0..3, 26 value rotations, 10 option sets", "trees with <= 4 nodes, same",
+   ["NaN/Infinity (not JSON)", "non-string keys, tuples (become lists)", "arbitrary (symbolic) strings", "json options beyond the ten sets (e.g. cls=, default=)"], COMMON_ASSUME + ["DictExporter is correct (C10)"])
+
+GR_OUT = ["to_picture (needs graphviz)", "names beyond the 11-entry pool for the structure obligations (escaping is checked separately on symbolic strings)",
+          "negative maxlevel (the statement quantifies over maxlevel >= 0)", "trees beyond the bound"]
+
+_p("C12", "CrossHair/z3 symbolic execution of DotExporter/UniqueDotExporter/RenderTreeGraph with lazy stop/filter flags and unbounded symbolic maxlevel; emitted lines parsed back",
+   CH + ". stop/filter answers are lazy solver Booleans, maxlevel None or any z3 Int >= 0; lines are parsed (quoted identifiers with backslash escapes) and compared with the declared "
+   "nodes / links of the statement. Escaping is checked on fully symbolic strings of length <= 2 (every code point) and on all strings over a 4-letter alphabet up to length 3. "
+   "Known finding F6 (edge to a stopped, undeclared child; pinned by tests/refdata) is recognised only by its exact extra-edge set.",
+   "one path = (shape, start, name rotation, maxlevel region, stop/filter answers, default|custom functions, indent); non-trivial = >= 2 declared nodes",
+   "trees with <= 3 nodes (structure, 11 name rotations) ; every start node; default and custom name/attr/edge functions, options, indent 0-3, graph/name",
+   "trees with <= 4 nodes, same", GR_OUT, COMMON_ASSUME + ["stop/filter are pure per node"])
+
+_p("C13", "CrossHair/z3 symbolic execution of MermaidExporter with lazy stop/filter flags and unbounded symbolic maxlevel; emitted lines parsed back",
+   CH + ". As C12; identifiers are read off the node lines and must be distinct, used consistently in edges and stable across iterations.",
+   "one path = (shape, start, name rotation, maxlevel region, stop/filter answers, default|custom functions, indent); non-trivial = >= 2 declared nodes",
+   "trees with <= 3 nodes, every start node, 11 name rotations, default and custom functions", "trees with <= 4 nodes, same", GR_OUT, COMMON_ASSUME + ["stop/filter are pure per node"])
+
 MUT_OUT = ["more nodes than the bound", "hooks that themselves mutate the tree (re-entrancy)", "concurrent mutation",
            "iterables with side effects while being consumed by children="]
 
@@ -199,6 +223,24 @@ def obligations(prop, tier):
                             picked="n, parent vector, start, attribute layout; options looped in-path", symbolic="attribute values (int/str/bool), maxlevel, drop flags"))
         out.append(dict(name="import_roundtrip", module="harness.dictio", body="import_body", cfg={"N": N}, depth=5, bounds="N<=%d" % N,
                         picked="nodecls, n, parent vector, attribute layout, explicit empty children", symbolic="attribute values"))
+    elif prop == "C11":
+        N = 3 if q else 4
+        out.append(dict(name="json_text_roundtrip", module="harness.dictio", body="json_body", cfg={"N": N}, depth=4 if q else 5, bounds="N<=%d" % N,
+                        picked="n, parent vector, start, value rotation, maxlevel; option sets looped in-path", symbolic="-"))
+    elif prop in ("C12", "C13"):
+        N = 3 if q else 4
+        sym = "maxlevel (unbounded int >= 0), stop/filter answers"
+        pk = "n, parent vector, start, name rotation, custom functions, indent"
+        if prop == "C12":
+            for ex in ("dot", "unique"):
+                out.append(dict(name="structure_" + ex, module="harness.graphs", body="dot_body", cfg={"N": N, "exporter": ex}, depth=5 if q else 6, bounds="N<=%d" % N, picked=pk, symbolic=sym))
+            out.append(dict(name="escaping", module="harness.graphs", body="esc_body", cfg={}, depth=2, bounds="symbolic str len<=2; alphabet strings len<=3", picked="alphabet strings", symbolic="name, other name (str, len<=2)", timeout=600))
+            out.append(dict(name="to_dotfile", module="harness.graphs", body="files_body", cfg={"N": 3}, depth=2, bounds="N<=3", picked="n, parent vector, name rotation", symbolic="-"))
+            out.append(dict(name="to_dotfile_unique", module="harness.graphs", body="files_body", cfg={"N": 3, "unique": True}, depth=2, bounds="N<=3", picked="n, parent vector, name rotation", symbolic="-"))
+        else:
+            out.append(dict(name="structure_mermaid", module="harness.graphs", body="mermaid_body", cfg={"N": N, "exporter": "mermaid"}, depth=5 if q else 6, bounds="N<=%d" % N, picked=pk, symbolic=sym))
+            out.append(dict(name="escaping", module="harness.graphs", body="esc_body", cfg={"mermaid": True}, depth=2, bounds="symbolic str len<=2; alphabet strings len<=3", picked="alphabet strings", symbolic="name, other name (str, len<=2)", timeout=600))
+            out.append(dict(name="to_file", module="harness.graphs", body="files_body", cfg={"N": 3, "mermaid": True}, depth=2, bounds="N<=3", picked="n, parent vector, name rotation", symbolic="-"))
     return out
 
 
